@@ -46,7 +46,7 @@ def main():
             na.append({"property_id": pid, "reason": NA.get(pid, NOT_YET)})
     m = {
         "version": 1,
-        "setup_cmd": "cd lean && lake build",
+        "setup_cmd": "./setup.sh",
         "hooks": {
             "guard": "INFRETIS_VERIF",
             "enable": "no source hooks: the harness subclasses/monkeypatches from outside (scripted generators, scripted engines, "
